@@ -60,30 +60,149 @@ func ordBi(v any) string {
 	return "OUn"
 }
 
-// class of a triple, from the inputs only: the recorded defects need an exact
-// number that float64 cannot hold together with a float, or a sliced list
-// together with a plain one
-func class(is []c08val.Info, dflt string) string {
-	var fl, inexInt, inexRat, huge, sub, plain bool
+// ---- input classes of a triple, computed from the inputs only (never from
+// what the implementation answered).
+//
+// The three recorded mixed-compare findings say: an exact number that meets a
+// float is first rounded as ConvertToFloat64 does (int64 and rationals to the
+// nearest float64, big ints beyond int64 to +-Inf) and then compared as a
+// float.  A pair (exact x, float y) belongs to such a class only if that
+// rounding really changes the answer, i.e. the exact comparison of x and y
+// differs from the comparison of the rounded x with y.  Pairs are taken at
+// corresponding positions of two of the three values, at any nesting depth of
+// lists (compare never looks inside maps: it uses Equal there).
+
+// roundedAsConvert is ConvertToFloat64's documented behaviour, re-stated.
+func roundedAsConvert(x any) float64 {
+	switch x := x.(type) {
+	case int:
+		return float64(x)
+	case *big.Int:
+		if x.IsInt64() {
+			return float64(x.Int64())
+		}
+		return math.Inf(x.Sign())
+	case *big.Rat:
+		f, _ := x.Float64()
+		return f
+	}
+	return math.NaN()
+}
+
+func exactRat(x any) *big.Rat {
+	switch x := x.(type) {
+	case int:
+		return new(big.Rat).SetInt64(int64(x))
+	case *big.Int:
+		return new(big.Rat).SetInt(x)
+	case *big.Rat:
+		return x
+	}
+	return nil
+}
+
+// sign of (x - y) by mathematical value; y is not NaN
+func exactCmp(x any, y float64) int {
+	switch {
+	case math.IsInf(y, 1):
+		return -1
+	case math.IsInf(y, -1):
+		return 1
+	}
+	return exactRat(x).Cmp(new(big.Rat).SetFloat64(y))
+}
+
+func floatCmp(a, b float64) int {
+	switch {
+	case a < b:
+		return -1
+	case a > b:
+		return 1
+	}
+	return 0
+}
+
+// mixedClass gives the finding class of one (exact, float) pair, or "".
+func mixedClass(x any, y float64) string {
+	if math.IsNaN(y) {
+		return "" // NaN is below every number either way
+	}
+	if exactCmp(x, y) == floatCmp(roundedAsConvert(x), y) {
+		return ""
+	}
+	switch x := x.(type) {
+	case int:
+		return "mixed-exact-inexact-compare-2p53"
+	case *big.Int:
+		if x.IsInt64() {
+			return "mixed-exact-inexact-compare-2p53"
+		}
+		return "mixed-bigint-float-compare-inf"
+	case *big.Rat:
+		return "mixed-rat-float-compare-rounded"
+	}
+	return ""
+}
+
+func isExact(v any) bool {
+	switch v.(type) {
+	case int, *big.Int, *big.Rat:
+		return true
+	}
+	return false
+}
+
+// pairClasses adds the classes of all number pairs at corresponding positions of x and y.
+func pairClasses(x, y any, out map[string]bool) {
+	if lx, ok := x.(vals.List); ok {
+		if ly, ok := y.(vals.List); ok {
+			ix, iy := lx.Iterator(), ly.Iterator()
+			for ix.HasElem() && iy.HasElem() {
+				pairClasses(ix.Elem(), iy.Elem(), out)
+				ix.Next()
+				iy.Next()
+			}
+		}
+		return
+	}
+	if fy, ok := y.(float64); ok && isExact(x) {
+		if c := mixedClass(x, fy); c != "" {
+			out[c] = true
+		}
+	}
+	if fx, ok := x.(float64); ok && isExact(y) {
+		if c := mixedClass(y, fx); c != "" {
+			out[c] = true
+		}
+	}
+}
+
+// class joins the base class with every applicable finding class by "|".
+func class(vs []any, is []c08val.Info, dflt string) string {
+	set := map[string]bool{}
+	for i := range vs {
+		for j := range vs {
+			if i < j {
+				pairClasses(vs[i], vs[j], set)
+			}
+		}
+	}
+	var sub, plain bool
 	for _, i := range is {
-		fl = fl || i.Float
-		inexInt = inexInt || i.InexactInt
-		inexRat = inexRat || i.InexactRat
-		huge = huge || i.HugeBig
 		sub = sub || i.SubList
 		plain = plain || i.PlainList
 	}
-	switch {
-	case sub && plain:
-		return "total-compare-sliced-list"
-	case fl && huge:
-		return "mixed-bigint-float-compare-inf"
-	case fl && inexInt:
-		return "mixed-exact-inexact-compare-2p53"
-	case fl && inexRat:
-		return "mixed-rat-float-compare-rounded"
+	if sub && plain {
+		set["total-compare-sliced-list"] = true // repaired class: marker only
 	}
-	return dflt
+	cl := dflt
+	for _, k := range []string{"mixed-exact-inexact-compare-2p53", "mixed-rat-float-compare-rounded",
+		"mixed-bigint-float-compare-inf", "total-compare-sliced-list"} {
+		if set[k] {
+			cl += "|" + k
+		}
+	}
+	return cl
 }
 
 func (r *runner) triple(kind string, a, b, c any) {
@@ -112,8 +231,10 @@ func (r *runner) triple(kind string, a, b, c any) {
 			}
 		}
 	}
-	cl := class(is, "triple-"+kind)
-	r.c.Count(cl)
+	cl := class(v, is, "triple-"+kind)
+	for _, k := range strings.Split(cl, "|") {
+		r.c.Count(k)
+	}
 	coq := App("mkCase", r.g.Ranks, List([]string{is[0].Coq, is[1].Coq, is[2].Coq}), List(obs))
 	sum := sha1.Sum([]byte(coq))
 	r.c.Emit(reg.Case{
